@@ -88,7 +88,7 @@ def classify_alloc(fnref):
 
 
 class Site:
-    __slots__ = ("fn", "bb", "kind", "what", "operands", "at", "mt", "term", "canon", "readable", "key", "alloc_arg")
+    __slots__ = ("fn", "bb", "kind", "what", "operands", "at", "mt", "term", "canon", "readable", "key", "alloc_arg", "path")
 
     def __init__(self, **kw):
         for k in self.__slots__:
@@ -101,6 +101,8 @@ class Site:
 def fn_display(f):
     """stable, human-readable function id used in keys: crate-qualified def path with impl self types"""
     p = re.sub(r"_#\d+", "_", f["path"])
+    # closure ordinals shift when an unrelated closure is added earlier in the function: name closures without index
+    p = re.sub(r"\{closure#\d+\}", "{closure}", p)
     if "{impl#" in p and f.get("self_ty"):
         st = short_ty(f["self_ty"])
         st = re.sub(r"<'[a-z_]+(, )?", "<", st).replace("<>", "")
@@ -177,4 +179,4 @@ def _mk(body, fd, bi, kind, what, ops, t):
     canon = ", ".join(body.render_operand(o, 3, names=False) for o in ops)
     readable = ", ".join(body.render_operand(o, 3, names=True) for o in ops)
     return Site(fn=fd, bb=bi, kind=kind, what=what, operands=ops, at=t.get("at"), mt=t.get("mt", ""), term=t,
-                canon=canon, readable=readable)
+                canon=canon, readable=readable, path=body.path)
